@@ -424,6 +424,15 @@ def handleC11 (req : Json) : Json :=
       | _, _ => (false, "model did not generate both")
     Json.mkObj [("holds_impl", jb hi.1), ("why", js hi.2), ("holds_model", jb hm.1), ("why_model", js hm.2)]
 
+/-- the names a script assigns more than once (`Ld.assignCount n script > 1`: the hypothesis of the
+"in the image `Ld.link` returns" theorems, Props/Final.lean, fails for exactly these). -/
+def assignedTwice (ls : List Line) : List Str :=
+  let names := ls.filterMap fun l => match l with
+    | .assign s _ _ _ _ => if s = c!"." then none else some s
+    | .addAssign s _ => if s = c!"." then none else some s
+    | _ => none
+  dedup (names.filter fun n => names.count n > 1)
+
 /-- op `ld`: run the linker semantics (Slinkyv.Ld) on a script text and an object table.
 request: script, objects = [[path, member|null, sec, size, align], …] in command-line order,
 defsyms = [[name, value], …]. -/
@@ -450,6 +459,7 @@ def handleLd (req : Json) : Json :=
   Json.mkObj [
     ("stable", .bool (Ld.stable objs defs ls)),
     ("emptied", .bool im.emptied),
+    ("assigned_twice", .arr ((assignedTwice ls).map fun n => Json.str (t2s n)).toArray),
     ("syms", Json.mkObj (im.syms.filterMap fun kv => match kv.2 with | some v => some (t2s kv.1, jn v) | none => none)),
     ("unresolved", .arr (im.syms.filterMap fun kv => match kv.2 with | none => some (Json.str (t2s kv.1)) | some _ => none).toArray),
     ("secs", .arr (im.secs.map fun o => Json.mkObj [("name", .str (t2s o.name)), ("addr", jn o.addr), ("size", jn o.size),
